@@ -29,7 +29,7 @@ func (k TKey) MarshalText() ([]byte, error) {
 
 // MarshalCase is one Go value that may collide names / hold ill-formed UTF-8.
 type MarshalCase struct {
-	Family int      `json:"family"` // 0 text keys, 1 interface keys, 2 fallback vs field, 3 ill-formed values, 4 ill-formed keys
+	Family int      `json:"family"` // 0 text keys, 1 interface keys, 2 fallback vs field, 3 ill-formed values, 4 ill-formed keys, 5 raw value (jsontext.Value) object with such names
 	Keys   [][]byte `json:"keys"`
 	Kinds  []int    `json:"kinds"`  // family 1: dynamic kind per key
 	Nested int      `json:"nested"` // wrap the value in this many slices / struct fields
@@ -43,7 +43,7 @@ var badKeyPool = []string{"\xff", "\xfe", "a\xff", "a\xfe", "ok", "�", "a�",
 var strPool = []string{"ok", "", "\xff", "a\x80b", "é", "\xc0\x80", "\xf4\x90\x80\x80", "<>", "\xe2\x82"}
 
 func genMarshal(t *rapid.T) MarshalCase {
-	c := MarshalCase{Family: rapid.IntRange(0, 4).Draw(t, "family"), Nested: rapid.IntRange(0, 3).Draw(t, "nested"),
+	c := MarshalCase{Family: rapid.IntRange(0, 5).Draw(t, "family"), Nested: rapid.IntRange(0, 3).Draw(t, "nested"),
 		UTF8: rapid.Bool().Draw(t, "utf8"), Dup: rapid.Bool().Draw(t, "dup"), Determ: rapid.Bool().Draw(t, "determ")}
 	n := rapid.IntRange(1, 4).Draw(t, "n")
 	for i := 0; i < n; i++ {
@@ -156,6 +156,30 @@ func (c *MarshalCase) value() (v any, names []string, bad bool, members int) {
 			}
 		}
 		v = h
+	case 5:
+		// a raw JSON object whose names are written with raw (possibly ill-formed) bytes
+		var sb []byte
+		sb = append(sb, '{')
+		seen := map[string]bool{}
+		for i, k := range c.Keys {
+			if seen[string(k)] {
+				continue // byte-identical names would be duplicates under any option
+			}
+			seen[string(k)] = true
+			if len(sb) > 1 {
+				sb = append(sb, ',')
+			}
+			sb = append(sb, '"')
+			sb = append(sb, k...)
+			sb = append(sb, '"', ':')
+			sb = append(sb, byte('0'+i%10))
+			if !ref.WellFormedUTF8(string(k)) {
+				bad = true
+			}
+			names = append(names, ref.Sanitize(string(k)))
+		}
+		sb = append(sb, '}')
+		v, members = jsontext.Value(sb), len(names)
 	default:
 		m := map[string]int{}
 		for i, k := range c.Keys {
